@@ -1,6 +1,8 @@
-//! C05: `humphrey::krauss::wildcard_match` on exhaustive small scopes and biased random pairs.
+//! C05: `humphrey::krauss::wildcard_match`, and `String::route_matches` (the entry point the router uses), on
+//! exhaustive small scopes and biased random pairs.
 use crate::common::*;
 use humphrey::krauss::wildcard_match;
+use humphrey::route::Route;
 
 /// Re-execute one case (`fn`, args…) on the implementation.
 pub fn exec(f: &[String]) -> Option<String> {
@@ -14,11 +16,32 @@ pub fn exec(f: &[String]) -> Option<String> {
                 Err(_) => "PANIC".into(),
             })
         }
+        ("route", 3) => {
+            let p = String::from_utf8(unhex(&f[1])).ok()?;
+            let t = String::from_utf8(unhex(&f[2])).ok()?;
+            Some(match guarded(|| p.route_matches(&t)) {
+                Ok(true) => "1".into(),
+                Ok(false) => "0".into(),
+                Err(_) => "PANIC".into(),
+            })
+        }
         _ => None,
     }
 }
 
 fn run(out: &mut Out, p: &str, t: &str) {
+    // the router's entry point: same pair through `route_matches`; written as its own case when the pair is in the
+    // dense part of the scope (short pattern with a literal and a wildcard) or whenever it answers differently
+    let via_route = exec(&["route".into(), hex(p.as_bytes()), hex(t.as_bytes())]).unwrap();
+    let direct = exec(&["glob".into(), hex(p.as_bytes()), hex(t.as_bytes())]).unwrap();
+    let short = p.chars().count() <= 5 && p.contains('*') && p.chars().any(|c| c != '*');
+    if via_route != direct {
+        out.count("route_matches-differs-from-wildcard_match");
+    }
+    if short || via_route != direct || p.len() > 12 {
+        out.count(&format!("route:result={}", via_route));
+        out.case(&["route", &hex(p.as_bytes()), &hex(t.as_bytes())], &via_route, true);
+    }
     let impl_out = exec(&["glob".into(), hex(p.as_bytes()), hex(t.as_bytes())]).unwrap();
     let impl_out = impl_out.as_str();
     let stars = p.chars().filter(|c| *c == '*').count();
